@@ -33,6 +33,7 @@ func TestCheck(t *testing.T) {
 		sequentialHistories(r)
 		nearCollisionIsolation(r)
 		defaultNameIsolation(r)
+		twoClustersIsolation(r)
 		partialSyncResize(r)
 
 		vkit.Sched.Enable(seed, 0.04, 0.02, 0.002)
@@ -55,7 +56,8 @@ func TestCheck(t *testing.T) {
 		r.Require(r.Counter("partial_sync_cases") >= 24 && r.Counter("partial_sync_cases_cluster-delete-recreate") >= 3 && r.Counter("partial_sync_cases_endpoint-unusable") >= 3, "too few partial-sync / re-create resize cases")
 		r.Require(r.Counter("seq_limiter_mode_flips") >= 100 && r.Counter("conc_limiter_mode_flips") >= 50, "too few limiter-mode flips")
 		r.Require(r.Counter("seq_boundary_limits(0_or_maxint32)") >= 50, "too few sequential histories with boundary limits")
-		r.Require(r.Counter("default_name_isolation_cases") >= 6, "too few system-default name isolation cases")
+		r.Require(r.Counter("two_clusters_cases") >= 8 && r.Counter("two_clusters_exact_probes") >= 64, "too few two-cluster isolation probes")
+		r.Require(r.Counter("default_name_isolation_cases_schema-less-policy") >= 6 && r.Counter("default_name_isolation_cases") >= 6, "too few system-default name isolation cases")
 		r.Require(r.Counter("near_collision_cases") >= 30 && r.Counter("near_collision_exact_probes") >= 250, "too few near-collision isolation probes")
 		r.Require(r.Counter("lin_histories") >= 100 && r.Counter("lin_admissions") >= 500, "too few linearizability histories")
 		if os.Getenv("VERIF_C05_SKIP_E2E") == "" {
@@ -63,6 +65,7 @@ func TestCheck(t *testing.T) {
 			r.Require(r.Counter("e2e_quiescence_429_observed") >= 20, "too few end-to-end quiescence probes reached the 429")
 			r.Require(r.Counter("e2e_panics_injected_while_writing_503") >= 5 && r.Counter("e2e_panics_injected_in_upgrade_hijack") >= 5, "too few panics were injected in the dispatcher's frame after admission")
 			r.Require(r.Counter("e2e_streams_ended_by_endpoint_removal") >= 3, "too few streams were torn down by an endpoint removal")
+			r.Require(r.Counter("e2e_two_clusters_scenarios") >= 2, "too few end-to-end two-cluster scenarios")
 			r.Require(r.Counter("e2e_cluster_recreate_scenarios") >= 2 && r.Counter("e2e_limit_zero_scenarios") >= 2, "too few cluster re-create / limit-zero scenarios")
 			r.Require(r.Counter("e2e_storm_scenarios_reaching_the_limit") >= 2 && r.Counter("e2e_storm_refused") >= 20 && r.Counter("e2e_storm_updates") >= 20, "the end-to-end storm did not load the limiter")
 			r.Require(r.Counter("e2e_end_watch-stream_status_200") >= 3 && r.Counter("e2e_end_http10_status_200") >= 3 && r.Counter("e2e_end_upload-aborted_status_0") >= 3, "too few watch / HTTP/1.0 / aborted-upload endings")
